@@ -48,12 +48,16 @@ def get_shape_memo():
 
 def set_shape_memo(single_memo, variadic_memo, pytree_memo, arg_memo) -> None:
     if _has_shape_memo():
-        _shape_storage.memo_stack[-1] = (
-            single_memo,
-            variadic_memo,
-            pytree_memo,
-            arg_memo,
-        )
+        # Restore the dictionaries on the stack in-place, rather than replacing them.
+        # Other code holds references to them -- the `jaxtyped` wrapper (to report the
+        # current bindings in error messages) and any enclosing `PyTree` check that is
+        # still in progress (to bind its structure name) -- and those references must
+        # keep pointing at the live memos after a failed check has been rolled back.
+        new_memos = (single_memo, variadic_memo, pytree_memo, arg_memo)
+        for memo, new_memo in zip(_shape_storage.memo_stack[-1], new_memos):
+            if memo is not new_memo:
+                memo.clear()
+                memo.update(new_memo)
 
 
 def push_shape_memo(arguments: dict[str, Any]):
